@@ -60,6 +60,10 @@ DiffFields(a, b) == {f \in {"ss", "nk", "ch", "holds", "srv", "lp", "cfg"} : a[f
 Eval(i) ==
   LET rec == Trace[i] IN
   IF rec.k \in {"reset", "end"} THEN TRUE
+  ELSE IF rec.k = "expire"
+  THEN (* C17 ExpireExact: exactly the sessions with Reply = 0 idle for longer than the expiration *)
+       LET want == {rec.ages[j][1] : j \in {q \in DOMAIN rec.ages : rec.ages[q][2] = 0 /\ rec.ages[q][3] > 0}} IN
+       IF ToSet(rec.expire) \ {-7} = want THEN TRUE ELSE PrintT(<<"PROP", <<"C17", "ExpireExact">>, rec.h, rec.i>>)
   ELSE
     LET pre  == StOf(Trace[i - 1].post)
         post == StOf(rec.post)
